@@ -31,9 +31,13 @@ def rec_n(inp, pos):
 
 
 def act_n(ctx, value):
+    """a stateful action: numbers the tokens of one parse through
+    context.extra (documented as per-parse state)"""
     if ctx.extra.get("boom"):
         raise Boom("action")
-    return value
+    k = ctx.extra.get("count", 0) + 1
+    ctx.extra["count"] = k
+    return f"{value}{k}"
 
 
 GR = {
@@ -92,7 +96,8 @@ def observe(p):
                 else:
                     n = fv.count()
                     out.append(("ok", [r[i].to_str() for i in range(min(n, 20))],
-                                str(n), errs))
+                                str(n), errs,
+                                repr(norm(p.call_actions(r[0]))) if n else None))
             else:
                 out.append(("ok", repr(norm(r)), errs))
         except parglare.SyntaxError as e:
@@ -131,7 +136,11 @@ def run_event(g, live, ev):
                     Parser(g, actions=ACTIONS, prefer_shifts=False,
                            prefer_shifts_over_empty=False)
                 elif ev[1] == "action":
-                    Parser(g, actions={"Nope": lambda *a: None})
+                    # the same actions plus a name that cannot be resolved
+                    # (the statement quantifies over builds "with the same
+                    # actions": another actions dict legitimately re-binds
+                    # the shared grammar's symbols)
+                    Parser(g, actions=dict(ACTIONS, Nope=lambda *a: None))
                 else:
                     # an interrupt (KeyboardInterrupt-like) in the middle of
                     # the first table that is constructed
